@@ -36,11 +36,15 @@ def memo_sites(repo):
     """-> list of dict(key, kind, fi)"""
     facts = get_facts(repo)
     out = []
+    keyed = keyed_memo_decorators(repo)
     for fi in facts.funcs.values():
         if 'cached_property' in fi.decorators:
             out.append({'key': fi.key, 'kind': 'cached_property', 'fi': fi})
         elif 'context_property' in fi.decorators:
             out.append({'key': fi.key, 'kind': 'context_property', 'fi': fi})
+        elif any(d in keyed for d in fi.decorators):
+            d = next(d for d in fi.decorators if d in keyed)
+            out.append({'key': fi.key, 'kind': 'keyed memo (%s)' % d, 'fi': fi, 'key_attrs': keyed[d]})
         else:
             # try: return self._x / except AttributeError: ... self._x = v    (also: try: v = self._x; hasattr(self, '_x'))
             found = set()
@@ -64,6 +68,50 @@ def memo_sites(repo):
             for a in sorted(found):
                 out.append({'key': fi.key, 'kind': 'attribute idiom (%s)' % a, 'fi': fi, 'attr': a})
     return out
+
+
+def keyed_memo_decorators(repo):
+    """Decorators defined in supp that turn a method into a property whose values are kept in a per-object table under a computed
+    key (`memo[key] = func(self)` inside the getter).  -> {decorator name: attribute names the key is computed from}"""
+    out = {}
+    for rel, tree in repo.trees.items():
+        for fn in tree.body:
+            if not isinstance(fn, ast.FunctionDef) or fn.name in ('cached_property', 'context_property'):
+                continue
+            if not any(isinstance(r, ast.Return) and isinstance(r.value, ast.Call) and unparse(r.value.func) == 'property'
+                       for r in ast.walk(fn)):
+                continue
+            for getter in [g for g in fn.body if isinstance(g, ast.FunctionDef)]:
+                keys = set()
+                for a in ast.walk(getter):
+                    if isinstance(a, ast.Assign):
+                        for t in a.targets:
+                            if isinstance(t, ast.Subscript) and isinstance(t.slice, ast.Name):
+                                keys.add(t.slice.id)
+                attrs = set()
+                for a in ast.walk(getter):
+                    if isinstance(a, ast.Assign) and any(isinstance(t, ast.Name) and t.id in keys for t in a.targets):
+                        attrs |= {n.attr for n in ast.walk(a.value) if isinstance(n, ast.Attribute)}
+                if keys:
+                    out[fn.name] = sorted(attrs)
+    return out
+
+
+def registers_itself(guard_fn, attrs):
+    """The guarded function puts its object into a registry named by one of `attrs` for the time of its extent (append/add, removed
+    in a finally): a memo keyed by that registry separates what is computed during the extent from what is computed outside."""
+    regs = set()
+    for a in ast.walk(guard_fn):
+        if isinstance(a, ast.Assign) and len(a.targets) == 1 and isinstance(a.targets[0], ast.Name) \
+                and isinstance(a.value, ast.Attribute) and a.value.attr in attrs:
+            regs.add(a.targets[0].id)
+    def is_reg(e):
+        return (isinstance(e, ast.Name) and e.id in regs) or (isinstance(e, ast.Attribute) and e.attr in attrs)
+    puts = [c for c in ast.walk(guard_fn) if isinstance(c, ast.Call) and isinstance(c.func, ast.Attribute) and is_reg(c.func.value)
+            and c.func.attr in ('append', 'add') and len(c.args) == 1 and unparse(c.args[0]) == 'self']
+    takes = [c for c in ast.walk(guard_fn) if isinstance(c, ast.Call) and isinstance(c.func, ast.Attribute) and is_reg(c.func.value)
+             and c.func.attr in ('pop', 'remove', 'discard')]
+    return bool(puts) and bool(takes) and all(_in_finally(c, guard_fn) for c in takes)
 
 
 def provisional_sources(repo):
@@ -257,6 +305,18 @@ def rule_provisional_memo(repo, res, rule, only_cycle=None):
                 a = cg.path(g.key, s['key'], True) or []
                 b = cg.path(s['key'], g.key, True) or []
                 path = ' -> '.join(k.split(':')[1] for k in a + b[1:])
+            if on_cycle and s['kind'].startswith('keyed memo'):
+                # a table kept per set of extents in progress: what is computed while the guard answers its sentinel is stored
+                # under another key than what is computed outside - provided the guard registers itself where the key is taken from
+                ok = registers_itself(g.node, s['key_attrs'])
+                res.check(rule, key, ok, s['fi'].rel, s['fi'].node.lineno,
+                          '%s (%s) is filled while %s may be in progress and calls back into it (%s); its table is keyed by %s, but %s does '
+                          'not register itself there for the time of its extent (put before the nested call, removed in a finally): values '
+                          'computed against the %s sentinel are handed to later queries' % (
+                              s['fi'].qual, s['kind'], g.qual, path, s['key_attrs'], g.qual, p['sentinel']),
+                          sample='%s: table keyed by the extents in progress (%s); order independence of the loop shapes is decided by '
+                                 'the loop model below' % (s['fi'].qual, ', '.join(s['key_attrs'])))
+                continue
             if on_cycle and s['kind'] not in ('cached_property', 'context_property') \
                     and not s['kind'].startswith('attribute idiom'):
                 raise AnalysisError('unrecognised memo discipline at %s' % s['key'])
@@ -300,8 +360,22 @@ def run(repo, res):
                   'in a %s loop, a name bound before the loop and again at the end of the body, another only at the end of the body: the read '
                   'at %s sees (x, y) = %s when asked first, %s when the read at %s was asked before it' % (cls, asked, alone, after, first))
     res.ob('C04-R1', 'loop shapes explored for order dependence', True, sample='%d lookups on the region graphs of for / async for / while, '
-           'compound and simple body statements; %d order-dependent shapes' % (nq, len(seen)))
+           'compound, simple and nested-loop body statements; %d order-dependent shapes' % (nq, len(seen)))
     res.count('loop_order_lookups', nq, floor=300)
+    # the answer the order comparison starts from: a lone lookup agrees with what the region graph says (bindings of ancestor regions,
+    # back edges included)
+    seen_w = set()
+    for cls, mode, asked, want, got in M.LOOP_ALONE_WRONG:
+        k = '%s, %s body statements: a lone lookup at %s disagrees with the region graph' % (R.method_name(repo, cls), mode, asked.split('[')[0])
+        if k in seen_w:
+            continue
+        seen_w.add(k)
+        line = R.method_line(repo, cls)
+        res.check('C04-R1', k, False, line[0], line[1],
+                  'in a %s loop (a name x bound before the loop and at the end of the body, y only at the end of the body) the region graph '
+                  'makes (x, y) = %s visible at %s, the lookup on a fresh graph answers %s: what is kept between the nested resolutions of '
+                  'the back edges is not what a complete resolution gives' % (cls, want, asked, got))
+    res.ob('C04-R1', 'lone lookups in loops agree with the region graph', not seen_w, sample='%d loop shapes x read positions' % nq)
     rule_memo_inventory(repo, res, 'C04-R5')
 
     # ---- R2 marker reset on every exit ----------------------------------------------------------
